@@ -1685,7 +1685,9 @@ class _Serializer:
             meth: Callable[[_Serializer, object], None] | None = getattr(
                 self.__class__, methodname, None
             )
-            if meth is None:
+            if meth is None or (tp.__module__ != "builtins" and tp is not Channel):
+                # only the builtin types themselves, not classes that merely
+                # share their name (e.g. a user-defined ``class bool(int)``)
                 raise DumpError(f"can't serialize {tp}") from None
             dispatch = self._dispatch[tp] = meth
         dispatch(self, obj)
